@@ -1,0 +1,35 @@
+//go:build verif
+
+package io
+
+import "sync/atomic"
+
+// Verification hooks (build tag "verif" only). A controller installed by the verification
+// harness is called at every step boundary of the block hand-off protocol; it may record the
+// event, yield, block the calling task until a scheduler releases it, or panic to inject a
+// failure at that step.
+const (
+	VerifEnc = 0
+	VerifDec = 1
+
+	VerifCompute = 0 // encode: before the transform / entropy stage
+	VerifWait    = 1 // top of every iteration of the wait loop
+	VerifHold    = 2 // token acquired, before the shared bitstream access
+	VerifPublish = 3 // decode: shared read done, before passing the token
+	VerifLocal   = 4 // decode: before the concurrent block decoding
+	VerifDefer   = 5 // deferred handler, before the cancel / token update
+	VerifDefer2  = 6 // decode: deferred handler between its load and its store
+	VerifDone    = 7 // after the counter update, before wg.Done
+)
+
+// VerifController is the signature of a hook controller.
+type VerifController func(side, site int, id int32, counter int32)
+
+// VerifHook holds the installed controller (nil: hooks do nothing).
+var VerifHook atomic.Pointer[VerifController]
+
+func verifPoint(side, site int, id int32, counter *int32) {
+	if h := VerifHook.Load(); h != nil {
+		(*h)(side, site, id, atomic.LoadInt32(counter))
+	}
+}
